@@ -704,6 +704,22 @@ func TestC07(t *testing.T) {
 				}
 			}
 		}
+		// definitions that only inheritance reaches, through every operation that may drop definitions, to every destination
+		deep := ttmlDoc{
+			Styles: []ttmlDef{{ID: "a", Ref: "b", Attrs: map[string]string{"color": "white"}}, {ID: "b", Ref: "c", Attrs: map[string]string{"fontSize": "10px"}},
+				{ID: "c", Ref: "d", Attrs: map[string]string{"fontFamily": "Arial"}}, {ID: "d", Attrs: map[string]string{"textAlign": "center"}},
+				{ID: "e", Ref: "f", Attrs: map[string]string{"color": "red"}}, {ID: "f", Ref: "d", Attrs: map[string]string{"extent": "80% 10%"}}, {ID: "unused", Ref: "a", Attrs: map[string]string{"color": "blue"}}},
+			Regions: []ttmlDef{{ID: "r", Ref: "e", Attrs: map[string]string{"origin": "10% 80%"}}, {ID: "idle", Ref: "unused", Attrs: map[string]string{"origin": "10% 10%"}}},
+			Cues: []ttmlCue{{Begin: msClock(1000), End: msClock(2500), Style: "a", Lines: [][]ttmlRun{{{Text: "first"}}}},
+				{Begin: msClock(3000), End: msClock(4500), Region: "r", Lines: [][]ttmlRun{{{Text: "second", Span: true, Style: "e"}}}}},
+		}
+		deepDoc := renderTTML(deep, ttmlRendering{StylePfx: "tts", XMLID: true, EOL: "\n"})
+		for _, dst := range c07Dests {
+			for k, ops := range [][]c07Op{{{Name: "optimize"}}, {{Name: "optimize"}, {Name: "optimize"}}, {{Name: "sync", D: 1000 * nsMs}, {Name: "optimize"}, {Name: "order"}}} {
+				ev.CaseH(true, mix(strHash("deep"+dst), uint64(k)), "matrix", "inheritance-chain-of-depth-4-then-optimize")
+				verdict(t, "C07", "c07", c07Case{Src: "ttml", SrcExt: "ttml", Doc: deepDoc, Ops: ops, Dst: dst, DstExt: dst, CLI: true, Chain: k > 0}, checkC07)
+			}
+		}
 		for _, bad := range []string{"txt", "sub", "SRTX", "x", "ttm", "vt", "ts", "TS", "m2ts", "srt.bak", "stlx"} {
 			ev.CaseH(true, strHash("bad"+bad), "invalid-extension")
 			verdict(t, "C07", "c07", c07Case{BadExt: bad, Doc: []byte("1\n00:00:01,000 --> 00:00:02,000\nx\n")}, checkC07)
